@@ -148,4 +148,39 @@ theorem runO_eq (cfg : Cfg M K R) (ops : List (COpO M K)) :
   | nil => intro s; rfl
   | cons op ops ih => intro s; simp only [Coll.runO, Coll.run, List.map_cons, stepO_eq, ih]
 
+theorem vrunO_eq (cfg : Cfg M K R) (ops : List (VOpO M K)) :
+    ∀ s : VState M, Value.runO cfg s ops = Value.run cfg s (ops.map (compileVOp cfg.ops)) := by
+  induction ops with
+  | nil => intro s; rfl
+  | cons op ops ih =>
+    intro s
+    cases op <;> simp only [Value.runO, Value.run, List.map_cons, ih] <;> rfl
+
+/-- is the option `WithAllFieldsWritable` -/
+def WOpt.isAllWritable : WOpt M K → Bool
+  | .allFieldsWritable => true
+  | _ => false
+
+/-- the additional writable fields of a list: the masks of its `WithMoreWritableFields` options,
+united left to right (the first through `fieldmaskpb.Union(nil, m)`) -/
+def moreWritableOf (ops : MsgOps M K) (opts : List (WOpt M K)) (acc : Option K) : Option K :=
+  opts.foldl (fun a o => match o with
+    | .moreWritable m => some (match a with | none => ops.union m none | some w => ops.union w (some m))
+    | _ => a) acc
+
+theorem foldl_writable (ops : MsgOps M K) (opts : List (WOpt M K)) :
+    ∀ wr : WriteReq M K,
+      (opts.foldl (applyW ops) wr).moreWritable = moreWritableOf ops opts wr.moreWritable ∧
+      (opts.foldl (applyW ops) wr).nilWritable = (wr.nilWritable || opts.any WOpt.isAllWritable) := by
+  induction opts with
+  | nil => intro wr; simp [moreWritableOf]
+  | cons o opts ih =>
+    intro wr
+    have := ih (applyW ops wr o)
+    simp only [List.foldl_cons, moreWritableOf, List.any_cons] at this ⊢
+    rw [this.1, this.2]
+    cases o <;> (try exact ⟨rfl, by simp [applyW, WOpt.isAllWritable]⟩)
+    case moreUpdateMask m =>
+      cases h : wr.updateMask <;> simp [applyW, h, WOpt.isAllWritable]
+
 end ScVerif.C01
